@@ -4,17 +4,33 @@
 (*                                                                         *)
 (* c14trace.ndjson holds many traces recorded on the real picker under the *)
 (* virtual clock, concatenated; each starts with a "reset" event:          *)
-(*   {"ev":"reset","n":N,"id":i}                                           *)
-(*   {"ev":"pick","c":c,"t":ms,"infl":[..],"succ":[..],"lag":[..]}         *)
+(*   {"ev":"reset","n":N,"id":i}            N connections 1..N in this history *)
+(*   {"ev":"build","p":k,"ready":[ids],"held":[ids],"t":ms, ...}           *)
+(*        the balancer of some client published picker k, built over the   *)
+(*        ready set `ready` (driver's record of the states it delivered);  *)
+(*        `held` = the connections found in the picker (0 = a SubConn that *)
+(*        is none of the history)                                          *)
+(*   {"ev":"pick","p":k,"c":c,"t":ms,"infl":[..],"succ":[..],"lag":[..]}   *)
 (*   {"ev":"done","c":c,"code":"Unavailable","lat":us,"t":ms, ...same}     *)
 (*   {"ev":"dbegin","c":c,"t":ms, ...}  a completion began (in-flight decremented, time t read) *)
 (*   {"ev":"dend","c":c,"code":..,"lat":us,"t":ms (the time read at dbegin), ...} its update applied *)
 (*   {"ev":"state","t":ms,"picks":[..],"dones":[..],"lmin":[..],"lmax":[..],"seen":[..], ...same} *)
-(* infl/succ/lag are the projection of every ready connection read after   *)
-(* the operation (c = 0: the pick returned something that is not a ready   *)
-(* connection).  "state" is the quiescent state after a concurrent run     *)
-(* (no per-step order is claimed for it): the invariants of P2C.tla are    *)
-(* evaluated on it.                                                        *)
+(* infl/succ/lag (length N) are the projection of the event's picker read  *)
+(* after the operation; only the entries of the picker's ready connections *)
+(* are compared (c = 0: the pick returned something that is no connection  *)
+(* of the history).  "p" defaults to 0.                                    *)
+(*                                                                         *)
+(* Several pickers may be alive in one history (several clients served by  *)
+(* the one registered picker builder; a client's picker rebuilt after a    *)
+(* connection went down while the previous picker still serves picks and   *)
+(* completions).  Each picker is an independent instance of P2C.tla whose  *)
+(* ready connections are those of its own build: the variables of P2C hold *)
+(* the state of the current picker `cur`, `bank` the states of the others; *)
+(* an event of another picker is preceded by a switch step that swaps the  *)
+(* states (it consumes no event).  A "build" is accepted when the picker   *)
+(* holds exactly the ready connections of its build (clause "ready-set").  *)
+(* "state" is the quiescent state after a concurrent run (no per-step      *)
+(* order is claimed for it): the invariants of P2C.tla are evaluated on it. *)
 (*                                                                         *)
 (* Every pick/done event must be a step of P2C.tla: the guard of the       *)
 (* action holds for the logged arguments (new score and estimate taken     *)
@@ -28,20 +44,49 @@
 EXTENDS P2C, Json
 
 VARIABLES l,        \* index of the next event
-          skip      \* the current trace was rejected: ignore events up to the next reset
+          skip,     \* the current trace was rejected: ignore events up to the next reset
+          bank,     \* [picker ids -> state record] the pickers of the history that have been current
+          cur,      \* the picker whose state the variables of P2C hold
+          univ      \* number of connections of the history (length of the logged projections)
 
-tvars == <<vars, l, skip>>
+mvars == <<bank, cur, univ>>
+tvars == <<vars, l, skip, mvars>>
 
 TraceLog == ndJsonDeserialize("c14trace.ndjson")
 NEv == Len(TraceLog)
 MaxRej == 200
 
-Ready(n) == 1..n
+PidOf(e) == IF "p" \in DOMAIN e THEN e.p ELSE 0
+SeqSet(s) == {s[i] : i \in 1..Len(s)}
 
-\* the logged projection equals the given post-state functions on the ready connections
+\* the state of one picker as a record / a picker just built over the ready set r
+Snap ==
+  [ready |-> ready, now |-> now, infl |-> infl, picks |-> picks, dones |-> dones, succ |-> succ, lag |-> lag,
+   lmin |-> lmin, lmax |-> lmax, lastPick |-> lastPick, lastDone |-> lastDone, prevPick |-> prevPick,
+   badrun |-> badrun, goodrun |-> goodrun, failrun |-> failrun, half |-> half, ended |-> ended]
+Fresh(r, t) ==
+  [ready |-> r, now |-> t, infl |-> Zero, picks |-> Zero, dones |-> Zero, succ |-> [c \in Conns |-> InitSuccess],
+   lag |-> Zero, lmin |-> Zero, lmax |-> Zero, lastPick |-> [c \in Conns |-> -1], lastDone |-> [c \in Conns |-> -1],
+   prevPick |-> -1, badrun |-> Zero, goodrun |-> Zero, failrun |-> Zero, half |-> Zero, ended |-> Zero]
+Load(s) ==
+  /\ ready' = s.ready /\ now' = s.now
+  /\ infl' = s.infl /\ picks' = s.picks /\ dones' = s.dones
+  /\ succ' = s.succ /\ lag' = s.lag /\ lmin' = s.lmin /\ lmax' = s.lmax
+  /\ lastPick' = s.lastPick /\ lastDone' = s.lastDone /\ prevPick' = s.prevPick
+  /\ badrun' = s.badrun /\ goodrun' = s.goodrun /\ failrun' = s.failrun /\ half' = s.half /\ ended' = s.ended
+  /\ out' = [op |-> "init"]
+
+\* the logged projection equals the given post-state functions on the picker's ready connections
 ProjOK(e, i2, s2, g2) ==
-  /\ Len(e.infl) = Cardinality(ready) /\ Len(e.succ) = Cardinality(ready) /\ Len(e.lag) = Cardinality(ready)
+  /\ Len(e.infl) = univ /\ Len(e.succ) = univ /\ Len(e.lag) = univ
   /\ \A c \in ready : e.infl[c] = i2[c] /\ e.succ[c] = s2[c] /\ e.lag[c] = g2[c]
+
+\* a picker serves the ready connections of its build: all of them (each is to be picked about once
+\* per second under sustained traffic) and nothing else (every pick returns one of them); a fresh
+\* picker has no picks and no completions
+BuildWhy(e) ==
+  IF ~(Len(e.held) = Len(e.ready) /\ SeqSet(e.held) = SeqSet(e.ready)) THEN {"ready-set"}
+  ELSE IF \A c \in SeqSet(e.ready) : e.infl[c] = 0 THEN {} ELSE {"inflight"}
 
 PickWhy(e) ==
   LET c == e.c IN
@@ -72,48 +117,63 @@ StateWhy(e) ==
 Reject(why) ==
   /\ IF Len(TLCGet(2)) < MaxRej THEN TLCSet(2, Append(TLCGet(2), [l |-> l, why |-> why])) ELSE TRUE
   /\ skip' = TRUE
-  /\ UNCHANGED vars
+  /\ UNCHANGED <<vars, mvars>>
 
 TInit ==
   /\ InitWith({})
   /\ l = 1 /\ skip = TRUE
+  /\ bank = <<>> /\ cur = 0 /\ univ = 0
   /\ TLCSet(1, 0) /\ TLCSet(2, <<>>)
 
+\* a new history: no picker has a ready connection until its build is logged
 TReset(e) ==
-  /\ ready' = Ready(e.n) /\ now' = 0
-  /\ infl' = Zero /\ picks' = Zero /\ dones' = Zero
-  /\ succ' = [c \in Conns |-> InitSuccess]
-  /\ lag' = Zero /\ lmin' = Zero /\ lmax' = Zero
-  /\ lastPick' = [c \in Conns |-> -1] /\ lastDone' = [c \in Conns |-> -1]
-  /\ prevPick' = -1 /\ badrun' = Zero /\ goodrun' = Zero /\ failrun' = Zero /\ half' = Zero /\ ended' = Zero
-  /\ out' = [op |-> "init"]
+  /\ Load(Fresh({}, 0))
+  /\ bank' = <<>> /\ cur' = 0 /\ univ' = e.n
   /\ skip' = FALSE
+
+\* picker `cur` (the switch step has made the event's picker current) starts as a fresh instance
+TBuild(e) ==
+  /\ Load(Fresh(SeqSet(e.ready), e.t))
+  /\ UNCHANGED <<skip, mvars>>
+
+\* the event belongs to another picker than the current one: swap the states, consume nothing
+TSwitch(p) ==
+  /\ bank' = [q \in DOMAIN bank \cup {cur} |-> IF q = cur THEN Snap ELSE bank[q]]
+  /\ Load(IF p \in DOMAIN bank THEN bank[p] ELSE Fresh({}, 0))
+  /\ cur' = p
+  /\ UNCHANGED <<l, skip, univ>>
 
 TStep ==
   LET e == TraceLog[l] IN
   CASE e.ev = "reset" -> TReset(e)
-    [] e.ev # "reset" /\ skip -> UNCHANGED <<vars, skip>>
+    [] e.ev # "reset" /\ skip -> UNCHANGED <<vars, skip, mvars>>
+    [] e.ev = "build" /\ ~skip ->
+         LET why == BuildWhy(e) IN
+         IF why = {} THEN TBuild(e) ELSE Reject(why)
     [] e.ev = "pick" /\ ~skip ->
          LET why == PickWhy(e) IN
-         IF why = {} THEN Pick(e.c, e.t) /\ UNCHANGED skip ELSE Reject(why)
+         IF why = {} THEN Pick(e.c, e.t) /\ UNCHANGED <<skip, mvars>> ELSE Reject(why)
     [] e.ev = "done" /\ ~skip ->
          LET why == DoneWhy(e) IN
-         IF why = {} THEN Done(e.c, e.code, e.lat, e.t, e.succ[e.c], e.lag[e.c]) /\ UNCHANGED skip ELSE Reject(why)
+         IF why = {} THEN Done(e.c, e.code, e.lat, e.t, e.succ[e.c], e.lag[e.c]) /\ UNCHANGED <<skip, mvars>> ELSE Reject(why)
     [] e.ev = "dbegin" /\ ~skip ->
          LET why == BeginWhy(e) IN
-         IF why = {} THEN DoneBegin(e.c, e.t) /\ UNCHANGED skip ELSE Reject(why)
+         IF why = {} THEN DoneBegin(e.c, e.t) /\ UNCHANGED <<skip, mvars>> ELSE Reject(why)
     [] e.ev = "dend" /\ ~skip ->
          LET why == DoneWhy(e) IN
-         IF why = {} THEN DoneEnd(e.c, e.code, e.lat, e.t, e.succ[e.c], e.lag[e.c]) /\ UNCHANGED skip ELSE Reject(why)
+         IF why = {} THEN DoneEnd(e.c, e.code, e.lat, e.t, e.succ[e.c], e.lag[e.c]) /\ UNCHANGED <<skip, mvars>> ELSE Reject(why)
     [] e.ev = "state" /\ ~skip ->
          LET why == StateWhy(e) IN
-         IF why = {} THEN UNCHANGED <<vars, skip>> ELSE Reject(why)
+         IF why = {} THEN UNCHANGED <<vars, skip, mvars>> ELSE Reject(why)
 
 TNext ==
   /\ l <= NEv
-  /\ TStep
-  /\ l' = l + 1
-  /\ TLCSet(1, l)
+  /\ LET e == TraceLog[l] IN
+       IF e.ev # "reset" /\ ~skip /\ PidOf(e) # cur
+       THEN TSwitch(PidOf(e))
+       ELSE /\ TStep
+            /\ l' = l + 1
+            /\ TLCSet(1, l)
 
 TSpec == TInit /\ [][TNext]_tvars
 
